@@ -275,7 +275,9 @@ func c17CheckRoute(r *vcore.Run, s string) {
 func c17Hex(n int, c byte) string { return strings.Repeat(string(c), n) }
 
 func c17Components() (hosts, repos, tags, digs []string) {
-	hosts = []string{"", "a.b", "a.b:0", "a:0", "A.b-c.d", "[::1]", "[a:0::F]:00", "0.0.0.0:5000", "localhost", "a", "a.b:", "-a.b", "a.b-", "[::1", "a..b", "a.b:x", "[g]"}
+	hosts = []string{"", "a.b", "a.b:0", "a:0", "A.b-c.d", "[::1]", "[a:0::F]:00", "0.0.0.0:5000", "localhost", "a", "a.b:", "-a.b", "a.b-", "[::1", "a..b", "a.b:x", "[g]",
+		// ports beyond what TCP allows: whatever the validator says about them, the parser says too
+		"localhost:65535", "localhost:65536", "a.b:99999", "[::1]:70000", "a.b:99999999999999999999"}
 	long := func(n int) string { return strings.Repeat("a", n) }
 	repos = []string{"a", "a/b", "a.b/c", "a_b", "a__b", "a---b", "a.b_c-d/e0", long(255), long(256), long(127) + "/" + long(127), long(127) + "/" + long(128),
 		"A", "a//b", "a/", "/a", "a___b", "a_.b", "a.", "", "a/b/manifests/c", "blobs/uploads", "a:0"}
